@@ -22,6 +22,7 @@ shape raises `Unsupported`; the checks of C14/C15 then go to the failing-input s
 from __future__ import annotations
 
 import ast
+import copy
 import pathlib
 from fractions import Fraction
 
@@ -50,10 +51,20 @@ def _strip(body: list[ast.stmt]) -> list[ast.stmt]:
             continue
         if _is_log(s):
             continue
-        if isinstance(s, ast.If) and not _strip(s.body) and not _strip(s.orelse):
+        if isinstance(s, ast.If) and not _strip(s.body) and not _strip(s.orelse) and not _mutates(s.test):
             continue
         out.append(s)
     return out
+
+
+MUTATORS = {"pop", "setdefault", "update", "clear", "popitem", "add", "remove", "discard", "append", "extend",
+            "insert", "send", "cancel", "set_result", "set_exception"}
+
+
+def _mutates(node: ast.AST) -> bool:
+    """Does evaluating this expression (possibly) change state?  (method calls with a mutating name)"""
+    return any(isinstance(c, ast.Call) and isinstance(c.func, ast.Attribute) and c.func.attr in MUTATORS
+               for c in ast.walk(node))
 
 
 def _is_log(s: ast.stmt) -> bool:
@@ -63,6 +74,7 @@ def _is_log(s: ast.stmt) -> bool:
         and isinstance(s.value.func, ast.Attribute)
         and isinstance(s.value.func.value, ast.Name)
         and s.value.func.value.id in ("_logger", "logging")
+        and not any(_mutates(a) for a in s.value.args)
     )
 
 
@@ -89,55 +101,178 @@ def _contains(node: ast.AST | list[ast.stmt], kind: type | tuple[type, ...]) -> 
     return any(isinstance(x, kind) for n in nodes for x in ast.walk(n))
 
 
+# ----------------------------------------------------------------------------- normalisation
+class _Subst(ast.NodeTransformer):
+    """Inline locals: every loaded name that has a recorded defining expression is replaced by it."""
+
+    def __init__(self, env: dict[str, ast.expr]):
+        self.env = env
+
+    def visit_Name(self, node: ast.Name) -> ast.AST:  # noqa: N802
+        if isinstance(node.ctx, ast.Load) and node.id in self.env:
+            repl = self.env[node.id]
+            if isinstance(repl, ast.Name) and repl.id == node.id:
+                return node
+            return _Subst({k: v for k, v in self.env.items() if k != node.id}).visit(copy.deepcopy(repl))
+        return node
+
+    def visit_NamedExpr(self, node: ast.NamedExpr) -> ast.AST:  # noqa: N802
+        return self.visit(node.value)
+
+
+def _canon(node: ast.AST, env: dict[str, ast.expr]) -> str:
+    return ast.unparse(_Subst(env).visit(copy.deepcopy(node)))
+
+
+def _methods(cls: ast.ClassDef) -> dict[str, ast.FunctionDef]:
+    return {n.name: n for n in cls.body if isinstance(n, ast.FunctionDef)}
+
+
 # ----------------------------------------------------------------------------- C14
-def _membership(test: ast.expr, rid: str) -> tuple[str, bool]:
-    """`rid in self._X` / `rid not in self._X` -> ("_X", positive?)."""
-    neg = False
-    if isinstance(test, ast.UnaryOp) and isinstance(test.op, ast.Not):
-        neg, test = True, test.operand
-    if (
-        isinstance(test, ast.Compare)
-        and len(test.ops) == 1
-        and isinstance(test.ops[0], (ast.In, ast.NotIn))
-        and isinstance(test.left, ast.Name)
-        and test.left.id == rid
-        and isinstance(test.comparators[0], ast.Attribute)
-        and _src(test.comparators[0].value) == "self"
-    ):
-        pos = isinstance(test.ops[0], ast.In) != neg
-        return test.comparators[0].attr, pos
-    raise Unsupported(f"membership test expected, got `{_src(test)}`")
+class _Path:
+    def __init__(self) -> None:
+        self.cond: dict[str, bool] = {}
+        self.eff: list[str] = []
+        self.st = "run"  # run | continue | return
+        self.env: dict[str, ast.expr] = {}
+
+    def copy(self) -> "_Path":
+        q = _Path()
+        q.cond, q.eff, q.st, q.env = dict(self.cond), list(self.eff), self.st, dict(self.env)
+        return q
 
 
-def _arrive_action(body: list[ast.stmt], rid: str, req: str) -> str:
-    body = _strip(body)
-    if not body:
-        return "drop"
-    if len(body) != 1:
-        raise Unsupported("arrival branch with more than one effect")
-    s = body[0]
-    if isinstance(s, ast.Assign) and _src(s.targets[0]) == f"self._pending_requests[{rid}]" and _src(s.value) == req:
-        return "storePending"
-    if isinstance(s, ast.Expr) and _src(s.value) == f"self._process_request({rid}, {req})":
-        return "start"
-    raise Unsupported(f"arrival effect `{_src(s)}`")
+class _Sched:
+    """Symbolic execution of the (await-free) scheduling code over the two facts it can test:
+    `busy` = the request id is in `_processing_tasks`, `pend` = it is in `_pending_requests`.
+    Guard clauses, early `continue`/`return`, inverted tests, single-use locals and private helper methods of
+    the same class are normalised away; what remains per (busy, pend) combination is a list of effects."""
+
+    MAPS = {"self._processing_tasks": "busy", "self._pending_requests": "pend"}
+
+    def __init__(self, cls: ast.ClassDef, rid: str, req: str | None):
+        self.methods = _methods(cls)
+        self.rid, self.req = rid, req
+
+    def test(self, t: ast.expr, env: dict) -> tuple[str, bool] | None:
+        pos = True
+        while isinstance(t, ast.UnaryOp) and isinstance(t.op, ast.Not):
+            pos, t = not pos, t.operand
+        if isinstance(t, ast.NamedExpr):
+            t = t.value
+        if isinstance(t, ast.Compare) and len(t.ops) == 1:
+            op, left, right = t.ops[0], t.left, t.comparators[0]
+            if isinstance(op, (ast.In, ast.NotIn)) and _canon(left, env) == self.rid and _canon(right, env) in self.MAPS:
+                return self.MAPS[_canon(right, env)], pos == isinstance(op, ast.In)
+            if isinstance(op, (ast.Is, ast.IsNot)) and isinstance(right, ast.Constant) and right.value is None:
+                inner = self.test(left, env)
+                if inner is not None and isinstance(left, (ast.Call, ast.NamedExpr)):
+                    return inner[0], (pos == isinstance(op, ast.IsNot)) == inner[1]
+            return None
+        if isinstance(t, ast.Call) and isinstance(t.func, ast.Attribute) and t.func.attr == "get" and len(t.args) == 1:
+            if _canon(t.func.value, env) in self.MAPS and _canon(t.args[0], env) == self.rid:
+                return self.MAPS[_canon(t.func.value, env)], pos  # stored values are never falsy (tasks / requests)
+        return None
+
+    def effect(self, s: ast.stmt, env: dict) -> str | None:
+        rid = self.rid
+        if isinstance(s, ast.Expr):
+            c = _canon(s.value, env)
+            if self.req is not None and c == f"self._process_request({rid}, {self.req})":
+                return "start"
+            if c == f"self._process_request({rid}, self._pending_requests.pop({rid}))":
+                return "startPopped"
+            if c in (f"self._process_request({rid}, self._pending_requests[{rid}])",
+                     f"self._process_request({rid}, self._pending_requests.get({rid}))"):
+                return "startKept"
+            if c in (f"self._processing_tasks.pop({rid})", f"self._processing_tasks.pop({rid}, None)"):
+                return "clear"
+        if isinstance(s, ast.Delete) and len(s.targets) == 1 and _canon(s.targets[0], env) == f"self._processing_tasks[{rid}]":
+            return "clear"
+        if (isinstance(s, ast.Assign) and len(s.targets) == 1 and self.req is not None
+                and _canon(s.targets[0], env) == f"self._pending_requests[{rid}]" and _canon(s.value, env) == self.req):
+            return "storePending"
+        return None
+
+    def block(self, stmts: list[ast.stmt], paths: list[_Path]) -> list[_Path]:
+        for s in stmts:
+            nxt: list[_Path] = []
+            for p in paths:
+                nxt.extend(self.step(s, p) if p.st == "run" else [p])
+            paths = nxt
+        return paths
+
+    def step(self, s: ast.stmt, p: _Path) -> list[_Path]:
+        if (isinstance(s, ast.Expr) and isinstance(s.value, ast.Constant)) or isinstance(s, ast.Pass) or _is_log(s):
+            return [p]
+        if isinstance(s, ast.Continue):
+            p.st = "continue"
+            return [p]
+        if isinstance(s, ast.Return) and s.value is None:
+            p.st = "return"
+            return [p]
+        e = self.effect(s, p.env)
+        if e is not None:
+            p.eff.append(e)
+            return [p]
+        if isinstance(s, ast.If):
+            t = self.test(s.test, p.env)
+            if t is None or _mutates(s.test):
+                if not _strip(s.body) and not _strip(s.orelse) and not _mutates(s.test):
+                    return [p]
+                raise Unsupported(f"scheduling code branches on `{_src(s.test)}`")
+            atom, pos = t
+            if atom in p.cond:
+                return self.block(s.body if p.cond[atom] == pos else s.orelse, [p])
+            yes, no = p.copy(), p.copy()
+            yes.cond[atom], no.cond[atom] = pos, not pos
+            return self.block(s.body, [yes]) + self.block(s.orelse, [no])
+        if isinstance(s, (ast.Assign, ast.AnnAssign)) and isinstance(s.targets[0] if isinstance(s, ast.Assign) else s.target, ast.Name):
+            if s.value is None:
+                return [p]
+            name = (s.targets[0] if isinstance(s, ast.Assign) else s.target).id
+            if _mutates(s.value) and _canon(s.value, p.env) != f"self._pending_requests.pop({self.rid})":
+                raise Unsupported(f"scheduling code: assignment with a side effect `{_src(s)[:80]}`")
+            p.env[name] = _Subst(p.env).visit(copy.deepcopy(s.value))
+            return [p]
+        # a private helper of the same class: inline its body
+        if (isinstance(s, ast.Expr) and isinstance(s.value, ast.Call) and isinstance(s.value.func, ast.Attribute)
+                and _src(s.value.func.value) == "self" and s.value.func.attr in self.methods
+                and s.value.func.attr not in ("_process_request", "_handle_task_completion") and not s.value.keywords):
+            fn = self.methods[s.value.func.attr]
+            params = [a.arg for a in fn.args.args][1:]
+            if len(params) != len(s.value.args):
+                raise Unsupported(f"helper {fn.name}: argument count")
+            saved = p.env
+            p.env = {k: _Subst(saved).visit(copy.deepcopy(a)) for k, a in zip(params, s.value.args)}
+            out = self.block(fn.body, [p])
+            for q in out:
+                if q.st == "return":
+                    q.st = "run"
+                q.env = dict(saved)
+            return out
+        raise Unsupported(f"scheduling code: cannot interpret `{_src(s)[:80]}`")
+
+    def table(self, stmts: list[ast.stmt], env: dict[str, ast.expr]) -> dict[tuple[bool, bool], list[str]]:
+        start = _Path()
+        start.env = dict(env)
+        paths = self.block(stmts, [start])
+        out: dict[tuple[bool, bool], list[str]] = {}
+        for busy in (True, False):
+            for pend in (True, False):
+                match = [p for p in paths if p.cond.get("busy", busy) == busy and p.cond.get("pend", pend) == pend]
+                if len(match) != 1:
+                    raise Unsupported("scheduling code: ambiguous paths")
+                out[(busy, pend)] = match[0].eff
+        return out
 
 
-def _complete_action(body: list[ast.stmt], rid: str) -> str:
-    body = _strip(body)
-    if not body:
-        return "nothing"
-    if len(body) != 1:
-        raise Unsupported("completion branch with more than one effect")
-    s = _src(body[0])
-    if s == f"self._process_request({rid}, self._pending_requests.pop({rid}))":
-        return "startPopped"
-    if s in (f"self._process_request({rid}, self._pending_requests[{rid}])",
-             f"self._process_request({rid}, self._pending_requests.get({rid}))"):
-        return "startKept"
-    if s in (f"del self._processing_tasks[{rid}]", f"self._processing_tasks.pop({rid})"):
-        return "clear"
-    raise Unsupported(f"completion effect `{s}`")
+def _one(effects: list[str], empty: str) -> str:
+    if not effects:
+        return empty
+    if len(effects) != 1:
+        raise Unsupported(f"more than one effect on a path: {effects}")
+    return effects[0]
 
 
 def _policy(tree: ast.Module) -> dict[str, str]:
@@ -148,17 +283,18 @@ def _policy(tree: ast.Module) -> dict[str, str]:
     if len(loops) != 1 or _src(loops[0].iter) != "self._requests_receiver" or not isinstance(loops[0].target, ast.Name):
         raise Unsupported("_run: `async for <request> in self._requests_receiver` expected")
     req = loops[0].target.id
-    body = _strip(loops[0].body)
-    if len(body) != 2 or not isinstance(body[0], ast.Assign) or not isinstance(body[1], ast.If):
-        raise Unsupported("_run: loop body is not `<id> = frozenset(...)`; `if ...`")
-    if _src(body[0].value) != f"frozenset({req}.component_ids)" or not isinstance(body[0].targets[0], ast.Name):
-        raise Unsupported("_run: request id is not frozenset(request.component_ids)")
-    rid = body[0].targets[0].id
-    attr, pos = _membership(body[1].test, rid)
-    if attr != "_processing_tasks":
-        raise Unsupported("_run: branch is not on membership in _processing_tasks")
-    busy, idle = (body[1].body, body[1].orelse) if pos else (body[1].orelse, body[1].body)
-    pol = {"arriveBusy": "." + _arrive_action(busy, rid, req), "arriveIdle": "." + _arrive_action(idle, rid, req)}
+    if loops[0].orelse or [s for s in _strip(run.body) if s is not loops[0] and not isinstance(s, ast.Expr)]:
+        raise Unsupported("_run: unexpected statements around the request loop")
+    sched = _Sched(cls, f"frozenset({req}.component_ids)", req)
+    tab = sched.table(loops[0].body, {})
+    pol: dict[str, str] = {}
+    for key, busy in (("arriveBusy", True), ("arriveIdle", False)):
+        if tab[(busy, True)] != tab[(busy, False)] and busy:
+            raise Unsupported("_run: the effect of an arrival depends on whether a request is pending")
+        # (idle and pending is unreachable: a pending request exists only while a task is registered)
+        pol[key] = "." + _one(tab[(busy, False)], "drop")
+        if pol[key] not in (".storePending", ".start", ".drop"):
+            raise Unsupported(f"_run: arrival effect {pol[key]}")
     # ---- _handle_task_completion
     htc = _find_method(cls, "_handle_task_completion")
     params = [a.arg for a in htc.args.args]
@@ -177,31 +313,26 @@ def _policy(tree: ast.Module) -> dict[str, str]:
             names = _handler_names(h)
             if names is None or "Exception" in names or "BaseException" in names:
                 propagates = _contains(h.body, (ast.Raise, ast.Return))
+                if _strip([x for x in h.body if not isinstance(x, (ast.Raise, ast.Return))]):
+                    raise Unsupported("_handle_task_completion: the exception handler does more than logging")
                 break
         rest = hb[1:]
     elif isinstance(first, ast.Expr) and _src(first.value) == f"{task}.result()":
         propagates, rest = True, hb[1:]
     else:
-        # the result of the task is never inspected: an exception cannot escape
-        propagates, rest = False, hb
+        if any(f"{task}.result" in _src(x) or f"{task}.exception" in _src(x) for x in hb):
+            raise Unsupported("_handle_task_completion: the task's outcome is inspected in an unknown way")
+        propagates, rest = False, hb  # the outcome is never inspected: nothing can escape
     pol["excPropagates"] = "true" if propagates else "false"
-    if len(rest) != 1 or not isinstance(rest[0], ast.If):
-        raise Unsupported("_handle_task_completion: a single if/elif chain expected after the try")
-    top = rest[0]
-    attr, pos = _membership(top.test, rid2)
-    if attr != "_pending_requests" or not pos:
-        raise Unsupported("_handle_task_completion: first test is not `req_id in self._pending_requests`")
-    pol["completePending"] = "." + _complete_action(top.body, rid2)
-    other = _strip(top.orelse)
-    if not other:
-        pol["completeNoPending"] = ".nothing"
-    elif len(other) == 1 and isinstance(other[0], ast.If):
-        attr, pos = _membership(other[0].test, rid2)
-        if attr != "_processing_tasks" or not pos or _strip(other[0].orelse):
-            raise Unsupported("_handle_task_completion: elif is not `req_id in self._processing_tasks`")
-        pol["completeNoPending"] = "." + _complete_action(other[0].body, rid2)
-    else:
-        pol["completeNoPending"] = "." + _complete_action(other, rid2)
+    tab = _Sched(cls, rid2, None).table(rest, {})
+    if tab[(True, True)] != tab[(False, True)]:
+        raise Unsupported("_handle_task_completion: with a pending request the effect depends on the task table")
+    pol["completePending"] = "." + _one(tab[(True, True)], "nothing")
+    pol["completeNoPending"] = "." + _one(tab[(True, False)], "nothing")
+    if tab[(False, False)]:
+        raise Unsupported("_handle_task_completion: effect without a pending request and without a task")
+    if pol["completeNoPending"] not in (".clear", ".nothing") or pol["completePending"] == ".start":
+        raise Unsupported("_handle_task_completion: effect not expressible in the policy table")
     # ---- _process_request
     prq = _find_method(cls, "_process_request")
     pp = [a.arg for a in prq.args.args]
@@ -213,19 +344,31 @@ def _policy(tree: ast.Module) -> dict[str, str]:
     if len(tasks) != 1 or _src(tasks[0].value.args[0]) != f"self._component_manager.distribute_power({pp[2]})":
         raise Unsupported("_process_request: create_task(self._component_manager.distribute_power(request)) expected")
     tv = tasks[0].targets[0].id
+    nested = {s.name: s for s in pb if isinstance(s, ast.FunctionDef)}
     cbs = [s for s in pb if isinstance(s, ast.Expr) and isinstance(s.value, ast.Call)
            and _src(s.value.func) == f"{tv}.add_done_callback"]
-    if len(cbs) != 1:
+    if len(cbs) != 1 or len(cbs[0].value.args) != 1:
         raise Unsupported("_process_request: one add_done_callback expected")
     cb = cbs[0].value.args[0]
-    if not (isinstance(cb, ast.Lambda) and len(cb.args.args) == 1
-            and _src(cb.body) == f"self._handle_task_completion({pp[1]}, {pp[2]}, {cb.args.args[0].arg})"):
-        raise Unsupported("_process_request: callback is not self._handle_task_completion(req_id, request, t)")
+    want = f"self._handle_task_completion({pp[1]}, {pp[2]}, "
+    if isinstance(cb, ast.Lambda) and len(cb.args.args) == 1:
+        ok = _src(cb.body) == want + cb.args.args[0].arg + ")"
+    elif isinstance(cb, ast.Name) and cb.id in nested and len(nested[cb.id].args.args) == 1:
+        nb = _strip(nested[cb.id].body)
+        ok = len(nb) == 1 and isinstance(nb[0], (ast.Expr, ast.Return)) and nb[0].value is not None \
+            and _src(nb[0].value) == want + nested[cb.id].args.args[0].arg + ")"
+    elif isinstance(cb, ast.Call) and _src(cb.func) in ("functools.partial", "partial"):
+        ok = [_src(a) for a in cb.args] == ["self._handle_task_completion", pp[1], pp[2]] and not cb.keywords
+    else:
+        ok = False
+    if not ok:
+        raise Unsupported("_process_request: callback is not self._handle_task_completion(req_id, request, <task>)")
     regs = [s for s in pb if isinstance(s, ast.Assign) and _src(s.targets[0]) == f"self._processing_tasks[{pp[1]}]"]
     if any(_src(s.value) != tv for s in regs) or len(regs) > 1:
         raise Unsupported("_process_request: unexpected registration")
     pol["startRegisters"] = "true" if regs else "false"
-    if len(pb) != 2 + len(regs):
+    used_nested = [n for n in nested.values() if isinstance(cb, ast.Name) and n.name == cb.id]
+    if len(pb) != 2 + len(regs) + len(used_nested):
         raise Unsupported("_process_request: unexpected extra statements")
     return pol
 
@@ -247,17 +390,159 @@ def _handler_names(h: ast.ExceptHandler) -> list[str] | None:
     return [_src(e).split(".")[-1] for e in elts]
 
 
-def _handling(try_: ast.Try, classify_handler, ok_result: str) -> dict[str, str]:
-    table = {"ok": ok_result}
-    for outcome, mro in MRO.items():
-        res = "propagates"
-        for h in try_.handlers:
-            names = _handler_names(h)
-            if names is None or any(n in mro for n in names):
-                res = classify_handler(h)
+class _CallLoop:
+    """Symbolic execution of one iteration of the loop that inspects the finished `set_power` tasks, once per
+    outcome of `<task>.result()` (returns / raises one of the four exception kinds).  Boolean flags, guard
+    clauses, `continue`, try/except/else are interpreted; what is recorded is which accumulation effects
+    happen.  `effects` maps a statement (after inlining locals) to an effect name, or raises for a statement
+    that touches an accumulator in an unknown way."""
+
+    def __init__(self, task: str, effect, tracked: set[str]):
+        self.task, self.effect, self.tracked = task, effect, tracked
+
+    def run(self, body: list[ast.stmt], outcome: str) -> tuple[set[str], str]:
+        self.outcome = outcome
+        self.flags: dict[str, bool] = {}
+        self.env: dict[str, ast.expr] = {}
+        self.effects: list[str] = []
+        self.st = "run"
+        self.block(body)
+        if len(set(self.effects)) != len(self.effects):
+            raise Unsupported("an accumulation happens twice in one iteration")
+        return set(self.effects), self.st
+
+    def block(self, stmts: list[ast.stmt]) -> None:
+        for s in stmts:
+            if self.st != "run":
+                return
+            self.step(s)
+
+    def cond(self, t: ast.expr) -> bool:
+        if isinstance(t, ast.UnaryOp) and isinstance(t.op, ast.Not):
+            return not self.cond(t.operand)
+        if isinstance(t, ast.Name) and t.id in self.flags:
+            return self.flags[t.id]
+        if isinstance(t, ast.Constant) and isinstance(t.value, bool):
+            return t.value
+        if isinstance(t, ast.Compare) and len(t.ops) == 1 and isinstance(t.ops[0], (ast.Is, ast.IsNot, ast.Eq, ast.NotEq)) \
+                and isinstance(t.comparators[0], ast.Constant) and isinstance(t.comparators[0].value, bool):
+            v = self.cond(t.left) == t.comparators[0].value
+            return v if isinstance(t.ops[0], (ast.Is, ast.Eq)) else not v
+        raise Unsupported(f"result loop branches on `{_src(t)}`")
+
+    def step(self, s: ast.stmt) -> None:
+        if (isinstance(s, ast.Expr) and isinstance(s.value, ast.Constant)) or isinstance(s, ast.Pass) or _is_log(s):
+            return
+        if isinstance(s, ast.Continue):
+            self.st = "continue"
+            return
+        if isinstance(s, ast.Raise):
+            self.st = "raise"
+            return
+        e = self.effect(s, self.env)
+        if e is not None:
+            self.effects.append(e)
+            return
+        if isinstance(s, ast.If):
+            if _mutates(s.test):
+                raise Unsupported(f"result loop: test with a side effect `{_src(s.test)}`")
+            self.block(s.body if self.cond(s.test) else s.orelse)
+            return
+        if isinstance(s, (ast.Assign, ast.AnnAssign)):
+            tgt = s.targets[0] if isinstance(s, ast.Assign) else s.target
+            if isinstance(tgt, ast.Name) and tgt.id not in self.tracked and (isinstance(s, ast.AnnAssign) or len(s.targets) == 1):
+                if s.value is None:
+                    return
+                if _mutates(s.value):
+                    raise Unsupported(f"result loop: assignment with a side effect `{_src(s)[:80]}`")
+                if isinstance(s.value, ast.Constant) and isinstance(s.value.value, bool):
+                    self.flags[tgt.id] = s.value.value
+                else:
+                    self.flags.pop(tgt.id, None)
+                    self.env[tgt.id] = _Subst(self.env).visit(copy.deepcopy(s.value))
+                return
+        if isinstance(s, ast.Try):
+            self.try_(s)
+            return
+        raise Unsupported(f"result loop: cannot interpret `{_src(s)[:80]}`")
+
+    def try_(self, t: ast.Try) -> None:
+        raised = False
+        for s in t.body:
+            if self.st != "run":
                 break
-        table[outcome] = res
+            if isinstance(s, ast.Expr) and _canon(s.value, self.env) == f"{self.task}.result()":
+                if self.outcome != "ok":
+                    raised = True
+                    break
+                continue
+            self.step(s)
+        if raised:
+            mro = MRO[self.outcome]
+            for h in t.handlers:
+                names = _handler_names(h)
+                if names is None or any(n in mro for n in names):
+                    self.block(h.body)
+                    break
+            else:
+                self.st = "raise"
+        elif self.st == "run":
+            self.block(t.orelse)
+        saved, self.st = self.st, "run"
+        self.block(t.finalbody)
+        if self.st == "run":
+            self.st = saved
+
+
+def _handling_table(loop_body: list[ast.stmt], sim: _CallLoop, failed: set[str], succeeded: set[str]) -> dict[str, str]:
+    if not any(isinstance(x, ast.Try) for s in loop_body for x in ast.walk(s)):
+        raise Unsupported("result loop without try")
+    table = {}
+    for outcome in ["ok"] + list(MRO):
+        eff, st = sim.run(loop_body, outcome)
+        if st == "raise":
+            table[outcome] = "propagates"
+        elif eff == failed:
+            table[outcome] = "failed"
+        elif eff == succeeded:
+            table[outcome] = "succeeded"
+        else:
+            raise Unsupported(f"result loop: outcome {outcome} has the partial effect {sorted(eff)}")
     return table
+
+
+def _nonempty_test(t: ast.expr, coll: str) -> bool | None:
+    """`len(c) > 0`, `c`, `len(c) != 0`, `len(c) >= 1` -> True; `len(c) == 0`, `not c`, … -> False."""
+    if isinstance(t, ast.UnaryOp) and isinstance(t.op, ast.Not):
+        r = _nonempty_test(t.operand, coll)
+        return None if r is None else not r
+    src = _src(t).replace(" ", "")
+    if src in (coll, f"len({coll})>0", f"len({coll})!=0", f"len({coll})>=1", f"0<len({coll})", f"bool({coll})", f"len({coll})"):
+        return True
+    if src in (f"len({coll})==0", f"len({coll})<1", f"0==len({coll})", f"len({coll})<=0"):
+        return False
+    return None
+
+
+def _result_branches(fn: ast.AST, coll: str, where: str) -> None:
+    """Check that `PartialFailure` is built exactly when `coll` is non-empty and `Success` exactly otherwise."""
+    def has(nodes: list[ast.stmt], ctor: str) -> bool:
+        return any(isinstance(c, ast.Call) and _src(c.func) == ctor for n in nodes for c in ast.walk(n))
+
+    ifs = [n for n in ast.walk(fn) if isinstance(n, ast.If) and _nonempty_test(n.test, coll) is not None
+           and (has(n.body, "PartialFailure") or has(n.orelse, "PartialFailure") or has(n.body, "Success") or has(n.orelse, "Success"))]
+    if len(ifs) != 1:
+        raise Unsupported(f"{where}: one branch on the emptiness of `{coll}` selecting the result type expected")
+    n = ifs[0]
+    nonempty, empty = (n.body, n.orelse) if _nonempty_test(n.test, coll) else (n.orelse, n.body)
+    if has(empty, "PartialFailure") or has(nonempty, "Success"):
+        raise Unsupported(f"{where}: result type does not follow the emptiness of `{coll}`")
+    if has(nonempty, "PartialFailure") and has(empty, "Success"):
+        return
+    # one of the two is built after the `if`: the branch taken must leave the function
+    taken = nonempty if has(nonempty, "PartialFailure") else empty
+    if not (has(nonempty, "PartialFailure") or has(empty, "Success")) or not taken or not isinstance(taken[-1], ast.Return):
+        raise Unsupported(f"{where}: cannot tell which result is sent")
 
 
 # ----------------------------------------------------------------------------- expressions
@@ -362,48 +647,31 @@ def _battery(tree: ast.Module) -> tuple[dict[str, str], dict[str, str]]:
     dist_param = pr.args.args[2].arg
     if _src(loops[0].iter) != f"{tasks_param}.items()":
         raise Unsupported("_parse_result: loop is not over tasks.items()")
-    lb = _strip(loops[0].body)
-    tries = [s for s in lb if isinstance(s, ast.Try)]
-    if len(tries) != 1:
-        raise Unsupported("_parse_result: one try statement expected")
-    try_ = tries[0]
-    # the flag: a local set to True before the try
-    flags = [s.targets[0].id for s in lb if isinstance(s, ast.Assign) and isinstance(s.targets[0], ast.Name)
-             and isinstance(s.value, ast.Constant) and s.value.value is True and lb.index(s) < lb.index(try_)]
-    if len(flags) != 1:
-        raise Unsupported("_parse_result: `failed = True` before the try expected")
-    flag = flags[0]
-    tb = [_src(s) for s in _strip(try_.body)]
-    if not tb or tb[0] != f"{aws}.result()" or _strip(try_.orelse) or try_.finalbody:
-        raise Unsupported("_parse_result: try body does not start with `aws.result()`")
-
-    def sets_flag_false(stmts: list[ast.stmt]) -> bool:
-        return any(isinstance(x, ast.Assign) and _src(x.targets[0]) == flag and _src(x.value) == "False"
-                   for s in stmts for x in ast.walk(s))
-
-    def classify(h: ast.ExceptHandler) -> str:
-        if _contains(h.body, (ast.Raise, ast.Return, ast.Continue, ast.Break)):
-            return "propagates" if _contains(h.body, ast.Raise) else "succeeded"
-        return "succeeded" if sets_flag_false(h.body) else "failed"
-
-    ok = "succeeded" if sets_flag_false(try_.body) else "failed"
-    handling = _handling(try_, classify, ok)
-    after = lb[lb.index(try_) + 1:]
-    if len(after) != 1 or not isinstance(after[0], ast.If) or _src(after[0].test) != flag or _strip(after[0].orelse):
-        raise Unsupported("_parse_result: `if failed:` block expected after the try")
-    bats = [s.targets[0].id for s in lb if isinstance(s, ast.Assign) and isinstance(s.targets[0], ast.Name)
-            and _src(s.value) == f"self._inv_bats_map[{inv}]"]
-    if len(bats) != 1:
-        raise Unsupported("_parse_result: `battery_ids = self._inv_bats_map[inverter_id]` expected")
-    eff = [_src(s) for s in _strip(after[0].body)]
-    power_acc = [s for s in _strip(after[0].body) if isinstance(s, ast.AugAssign) and isinstance(s.op, ast.Add)
-                 and _src(s.value) == f"{dist_param}[{inv}]"]
-    set_acc = [e for e in eff if e.endswith(f".update({bats[0]})")]
-    if len(eff) != 2 or len(power_acc) != 1 or len(set_acc) != 1:
-        raise Unsupported("_parse_result: the failed block must add distribution[inverter_id] and the batteries")
     ret = [s for s in pr.body if isinstance(s, ast.Return)]
-    if len(ret) != 1 or _src(ret[0].value) != f"({_src(power_acc[0].target)}, {set_acc[0].split('.')[0]})":
+    if (len(ret) != 1 or not isinstance(ret[0].value, ast.Tuple) or len(ret[0].value.elts) != 2
+            or not all(isinstance(e, ast.Name) for e in ret[0].value.elts)):
         raise Unsupported("_parse_result: must return (failed_power, failed_batteries)")
+    power_var, set_var = (e.id for e in ret[0].value.elts)
+
+    def effect(s: ast.stmt, env: dict) -> str | None:
+        if isinstance(s, ast.AugAssign) and _src(s.target) == power_var:
+            if isinstance(s.op, ast.Add) and _canon(s.value, env) == f"{dist_param}[{inv}]":
+                return "power"
+            raise Unsupported(f"_parse_result: `{_src(s)}`")
+        if isinstance(s, ast.Expr) and isinstance(s.value, ast.Call) and _src(s.value.func).split(".")[0] == set_var:
+            if _src(s.value.func) == f"{set_var}.update" and [_canon(a, env) for a in s.value.args] == [f"self._inv_bats_map[{inv}]"]:
+                return "set"
+            raise Unsupported(f"_parse_result: `{_src(s)}`")
+        if any(isinstance(x, ast.Name) and isinstance(x.ctx, ast.Store) and x.id in (power_var, set_var) for x in ast.walk(s)) \
+                and not isinstance(s, (ast.If, ast.Try)):
+            raise Unsupported(f"_parse_result: `{_src(s)}`")
+        return None
+
+    handling = _handling_table(loops[0].body, _CallLoop(aws, effect, {power_var, set_var}), {"power", "set"}, set())
+    inits = {(_src(s.targets[0]) if isinstance(s, ast.Assign) else _src(s.target)): _src(s.value)
+             for s in pr.body if isinstance(s, (ast.Assign, ast.AnnAssign)) and s.value is not None}
+    if inits.get(power_var) not in ("0.0", "0") or inits.get(set_var) != "set()":
+        raise Unsupported("_parse_result: accumulators must start at 0.0 / set()")
     # ---- _distribute_power
     dp = _find_method(cls, "_distribute_power")
     request, dist = dp.args.args[1].arg, dp.args.args[2].arg
@@ -423,10 +691,7 @@ def _battery(tree: ast.Module) -> tuple[dict[str, str], dict[str, str]]:
     pf, ok_ = _kwargs_of(dp, "PartialFailure"), _kwargs_of(dp, "Success")
     if len(pf) != 1 or len(ok_) != 1:
         raise Unsupported("_distribute_power: one PartialFailure and one Success expected")
-    tests = [n for n in ast.walk(dp) if isinstance(n, ast.If) and _contains(n.body, ast.Call)
-             and any(_src(c.func) == "PartialFailure" for c in ast.walk(n) if isinstance(c, ast.Call))]
-    if len(tests) != 1 or _src(tests[0].test) not in (f"len({failed_set}) > 0", failed_set, f"len({failed_set}) != 0"):
-        raise Unsupported("_distribute_power: `if len(failed_batteries) > 0` expected")
+    _result_branches(dp, failed_set, "_distribute_power")
     exprs = {
         "batPfSucceeded": ex.tr(pf[0]["succeeded_power"]),
         "batPfFailed": ex.tr(pf[0]["failed_power"]),
@@ -450,54 +715,55 @@ def _pv(tree: ast.Module) -> tuple[dict[str, str], dict[str, str]]:
     # ---- _set_api_power
     sp = _find_method(cls, "_set_api_power")
     request, allocs, remaining = (a.arg for a in sp.args.args[1:4])
-    loops = [n for n in sp.body if isinstance(n, ast.For) and _src(n.iter) != f"{allocs}.items()"]
-    loops = [n for n in loops if any(isinstance(x, ast.Try) for x in n.body)]
-    if len(loops) != 1 or not isinstance(loops[0].target, ast.Tuple):
-        raise Unsupported("_set_api_power: `for component_id, task in tasks.items()` with a try expected")
+    pf, ok_ = _kwargs_of(sp, "PartialFailure"), _kwargs_of(sp, "Success")
+    if len(pf) != 1 or len(ok_) != 1:
+        raise Unsupported("_set_api_power: one PartialFailure and one Success expected")
+    if not (isinstance(pf[0].get("failed_components"), ast.Name) and isinstance(pf[0].get("succeeded_components"), ast.Name)
+            and _src(ok_[0].get("succeeded_components")) == _src(pf[0]["succeeded_components"])):
+        raise Unsupported("_set_api_power: component sets in the results are not plain collected sets")
+    failed_set, succ_set = pf[0]["failed_components"].id, pf[0]["succeeded_components"].id
+    loops = [n for n in sp.body if isinstance(n, ast.For) and isinstance(n.target, ast.Tuple) and len(n.target.elts) == 2
+             and any(isinstance(x, ast.Try) for s in n.body for x in ast.walk(s))]
+    if len(loops) != 1:
+        raise Unsupported("_set_api_power: one `for component_id, task in tasks.items()` loop with a try expected")
     cid, task = (_src(e) for e in loops[0].target.elts)
-    lb = _strip(loops[0].body)
-    if not isinstance(lb[0], ast.Try) or [_src(s) for s in _strip(lb[0].body)] != [f"{task}.result()"] or lb[0].finalbody:
-        raise Unsupported("_set_api_power: try body is not `task.result()`")
-    try_ = lb[0]
-    after = lb[1:]
-    fail_power = [s for s in after if isinstance(s, ast.AugAssign) and isinstance(s.op, ast.Add)
-                  and _src(s.value) == f"{allocs}[{cid}]"]
-    fail_set = [s for s in after if isinstance(s, ast.Expr) and _src(s.value).endswith(f".add({cid})")]
-    if len(after) != 2 or len(fail_power) != 1 or len(fail_set) != 1:
-        raise Unsupported("_set_api_power: after the try, the component and allocations[component_id] must be added to the failed set/power")
-    failed_name = _src(fail_power[0].target)
-    failed_set = _src(fail_set[0].value).split(".")[0]
+    accs = {_src(x.target) for x in ast.walk(loops[0]) if isinstance(x, ast.AugAssign)}
+    if len(accs) != 1:
+        raise Unsupported("_set_api_power: exactly one accumulated power expected in the result loop")
+    failed_name = accs.pop()
 
-    def leaves(stmts: list[ast.stmt]) -> str:
-        """What a block after `task.result()` does with the component."""
-        stmts = _strip(stmts)
-        if _contains(stmts, ast.Raise):
-            return "propagates"
-        adds = [_src(s.value).split(".")[0] for s in stmts if isinstance(s, ast.Expr) and _src(s.value).endswith(f".add({cid})")]
-        if stmts and isinstance(stmts[-1], ast.Continue):
-            if len(stmts) == 2 and adds and adds[0] != failed_set:
-                return "succeeded"
-            raise Unsupported("_set_api_power: unexpected block ending in continue")
-        if stmts:
-            raise Unsupported("_set_api_power: unexpected statements in handler")
-        return "failed"
+    def effect(s: ast.stmt, env: dict) -> str | None:
+        if isinstance(s, ast.AugAssign) and _src(s.target) == failed_name:
+            if isinstance(s.op, ast.Add) and _canon(s.value, env) == f"{allocs}[{cid}]":
+                return "failPower"
+            raise Unsupported(f"_set_api_power: `{_src(s)}`")
+        if isinstance(s, ast.Expr) and isinstance(s.value, ast.Call) and _src(s.value.func).split(".")[0] in (failed_set, succ_set):
+            who = _src(s.value.func).split(".")[0]
+            if _src(s.value.func) == f"{who}.add" and [_canon(a, env) for a in s.value.args] == [cid]:
+                return "failSet" if who == failed_set else "succSet"
+            raise Unsupported(f"_set_api_power: `{_src(s)}`")
+        if any(isinstance(x, ast.Name) and isinstance(x.ctx, ast.Store) and x.id in (failed_name, failed_set, succ_set)
+               for x in ast.walk(s)) and not isinstance(s, (ast.If, ast.Try)):
+            raise Unsupported(f"_set_api_power: `{_src(s)}`")
+        return None
 
-    handling = _handling(try_, lambda h: leaves(h.body), leaves(try_.orelse))
-    succ_sets = [_src(s.value).split(".")[0] for s in _strip(try_.orelse) if isinstance(s, ast.Expr)]
-    succ_set = succ_sets[0] if succ_sets else None
+    handling = _handling_table(loops[0].body, _CallLoop(task, effect, {failed_name, failed_set, succ_set}),
+                               {"failPower", "failSet"}, {"succSet"})
+    inits = {(_src(s.targets[0]) if isinstance(s, ast.Assign) else _src(s.target)): _src(s.value)
+             for s in sp.body if isinstance(s, (ast.Assign, ast.AnnAssign)) and s.value is not None}
+    if inits.get(failed_name) != "Power.zero()" or inits.get(failed_set) != "set()" or inits.get(succ_set) != "set()":
+        raise Unsupported("_set_api_power: accumulators must start at Power.zero() / set()")
+    # the tasks inspected are one `set_power(component_id, allocation)` per allocation
+    tasks_name = _src(loops[0].iter).removesuffix(".items()")
+    made = [n for n in ast.walk(sp) if isinstance(n, ast.Call) and _src(n.func) == "asyncio.create_task"]
+    if (len(made) != 1 or not _src(loops[0].iter).endswith(".items()") or tasks_name == allocs
+            or ".set_power(" not in _src(made[0].args[0]) or f"{allocs}.items()" not in _src(sp)):
+        raise Unsupported("_set_api_power: one set_power task per allocation expected")
     roles = {f"{request}.power": "requestPower", f"{request}.power.as_watts()": "requestPower", remaining: "remaining",
              failed_name: "failed", "self._target_power": "target"}
     inline = {k: v for k, v in _single_assignments(sp).items() if k not in (failed_name, failed_set, succ_set)}
     ex = Expr(roles, inline)
-    pf, ok_ = _kwargs_of(sp, "PartialFailure"), _kwargs_of(sp, "Success")
-    if len(pf) != 1 or len(ok_) != 1:
-        raise Unsupported("_set_api_power: one PartialFailure and one Success expected")
-    if (_src(pf[0]["failed_components"]) != failed_set or _src(pf[0]["succeeded_components"]) != succ_set
-            or _src(ok_[0]["succeeded_components"]) != succ_set):
-        raise Unsupported("_set_api_power: component sets in the results are not the collected ones")
-    ifs = [n for n in sp.body if isinstance(n, ast.If) and any(_src(c.func) == "PartialFailure" for c in ast.walk(n) if isinstance(c, ast.Call))]
-    if len(ifs) != 1 or _src(ifs[0].test) not in (failed_set, f"len({failed_set}) > 0") or not isinstance(_strip(ifs[0].body)[-1], ast.Return):
-        raise Unsupported("_set_api_power: `if failed_components: send(PartialFailure); return` expected")
+    _result_branches(sp, failed_set, "_set_api_power")
     exprs = {
         "pvTargetInit": target_init,
         "pvPfSucceeded": ex.tr(pf[0]["succeeded_power"]),
